@@ -5,6 +5,8 @@ import S3db.Model.Row
 import S3db.Model.Table
 import S3db.Gen.Crdt
 import S3db.Gen.Key
+import S3db.Model.Proto
+import S3db.Gen.Facts
 /-!
 # Line-protocol driver for the correspondence checks
 
@@ -186,6 +188,50 @@ def tblStep (st : TblState) (args : List String) : TblState × String :=
     (st, " ; ".intercalate (es.map fun p => p.1 ++ ": " ++ p.2))
   | _ => (st, "bad-op")
 
+/-! ## bucket protocol -/
+
+open S3db.Proto in
+def showReq : Req → String
+  | .list => "list"
+  | .get .current v => s!"get current {v}"
+  | .get .merged v => s!"get merged {v}"
+  | .putNodes v => s!"putNodes {v}"
+  | .putCur v => s!"putCur {v}"
+  | .putMerged v => s!"putMerged {v}"
+  | .delCur v => s!"delCur {v}"
+
+def showNats (xs : List Nat) : String :=
+  ",".intercalate ((xs.foldl (fun acc x => (acc.takeWhile (· < x)) ++ [x] ++ acc.dropWhile (· < x)) ([] : List Nat)).map toString)
+
+open S3db.Proto in
+def protoStep (st : Sys) (args : List String) : Sys × String :=
+  match args with
+  | "init" :: ros => (init (ros.map (· == "1")), "ok")
+  | ["act", i, a] =>
+    match i.toNat?, (match a with | "startOpen" => some Act.startOpen | "startCommit" => some Act.startCommit | "step" => some Act.step | "crash" => some Act.crash | _ => none) with
+    | some i, some a =>
+      let st' := step S3db.Gen.facts st i a
+      let out := if st'.trace.length > st.trace.length then
+          match st'.trace with
+          | (j, r) :: _ => s!"{j}:{showReq r}"
+          | [] => "-"
+        else "-"
+      (st', out)
+    | _, _ => (st, "bad-op")
+  | ["prefer", i, p] =>
+    -- parents are retired in Go map order: move the pair of requests for parent `p` to the front
+    match i.toNat?, p.toNat? with
+    | some i, some p =>
+      match st.clients[i]? with
+      | some c =>
+        let mine := c.queue.filter fun r => r == .putMerged p || r == .delCur p
+        let rest := c.queue.filter fun r => !(r == .putMerged p || r == .delCur p)
+        (setClient st i { c with queue := mine ++ rest }, "ok")
+      | none => (st, "bad-op")
+    | _, _ => (st, "bad-op")
+  | ["state"] => (st, s!"cur=[{showNats st.bucket.current}] mrg=[{showNats st.bucket.merged}]")
+  | _ => (st, "bad-op")
+
 /-! ## keys -/
 
 def showOptInt (o : Option Int) : String := match o with | some i => toString i | none => "panic"
@@ -201,6 +247,7 @@ def keyStep (args : List String) : String :=
 structure State where
   kv : KvState := []
   tbl : TblState := []
+  proto : S3db.Proto.Sys := {}
 
 def step (st : State) (line : String) : State × String :=
   match (line.trimAscii.toString.splitOn " ").filter (· ≠ "") with
@@ -208,6 +255,7 @@ def step (st : State) (line : String) : State × String :=
   | "kv" :: rest => let (k, out) := kvStep st.kv rest; ({ st with kv := k }, out)
   | "key" :: rest => (st, keyStep rest)
   | "row" :: rest => (st, rowStep rest)
+  | "proto" :: rest => let (p, out) := protoStep st.proto rest; ({ st with proto := p }, out)
   | "tbl" :: rest => let (t, out) := tblStep st.tbl rest; ({ st with tbl := t }, out)
   | "reset" :: _ => ({}, "ok")
   | _ => (st, "bad-op")
